@@ -6,6 +6,7 @@ import Verif.Spec.Mixin
 import Verif.Model.Index
 import Verif.Spec.Index
 import Verif.Model.OpsDriver
+import Verif.Spec.Classify
 import Verif.Generated.Facts
 
 open Lean
@@ -27,6 +28,27 @@ def dispatch (op : String) (inp : J) (impl : Option J) : J :=
             ("implExpected", match implDoc with | some d => .bool (d == Spec.Fixer.expected inp) | none => .null)])]
   | "analyze" =>
     .obj [("model", Index.toJson (Analyzer.analyze facts inp)), ("spec", Spec.Index.expected inp)]
+  | "classify" =>
+    let root := (inp.get? "root").getD .null
+    let e := (inp.get? "ext").getD .null
+    let x : Classify.Ext := {
+      knownFormat := fun fm => (e.getStrs "knownFormats").contains fm
+      refTokens := fun r => match J.lookup r (e.getObj "refTokens") with
+        | some (.arr xs) => some (J.strs xs)
+        | _ => none }
+    let encF := fun (f : Classify.Flags) => J.obj [
+      ("IsKnownType", .bool f.isKnownType), ("IsSimpleSchema", .bool f.isSimpleSchema), ("IsArray", .bool f.isArray),
+      ("IsSimpleArray", .bool f.isSimpleArray), ("IsMap", .bool f.isMap), ("IsSimpleMap", .bool f.isSimpleMap),
+      ("IsExtendedObject", .bool f.isExtendedObject), ("IsTuple", .bool f.isTuple), ("IsTupleWithExtra", .bool f.isTupleWithExtra),
+      ("IsBaseType", .bool f.isBaseType), ("IsEnum", .bool f.isEnum)]
+    .arr ((inp.getArr "schemas").map fun s =>
+      let m := Classify.classify facts x root 4000 [] s
+      let shape := Spec.Classify.shapeOf s
+      .obj [("model", JsonIO.outcome encF m),
+            ("spec", .obj [
+              ("shape", .str (reprStr shape)),
+              ("expectedComplex", match Spec.Classify.expectedComplex shape with | some b => .bool b | none => .null),
+              ("modelCoherent", match m with | .ok f => .bool (Spec.Classify.coherent f) | _ => .null)])])
   | "ops" => .obj [("answers", OpsDriver.run facts inp)]
   | "mixin" =>
     let primary := (inp.get? "primary").getD .null
